@@ -33,6 +33,7 @@ import json, os, re, sys
 from fractions import Fraction
 sys.path.insert(0, os.path.dirname(os.path.abspath(__file__)))
 import symexec as sx
+import strict
 from symexec import OutOfGrammar
 import gen_lbfgs as gl
 
@@ -475,8 +476,14 @@ class OExpr:
         self.oog("call of a value of kind %s" % k)
 
 
+# accounted, not translated: what a unit must contain besides its translated statements (text with the blanks removed: number of times)
+REQUIRED_TEXT = {"factor_masked": {"usingmmat=Eigen::Map<mat>;": 1, "usingEigen::indexing::all;": 1, "min_rcond=1;": 1,
+                                   "min_rcond=std::min(R̅LU.rcond(),min_rcond);": 2, "min_rcond=": 3}}
+
+
 class OHooks(sx.Hooks):
     """client side of OExpr / OExec; one instance per unit"""
+    known_usings = ("using mmat =Eigen::Map <mat >", "using Eigen::indexing::all")
 
     def __init__(self, layout=None, pfsig=None, callables=(), qrmap=None):
         self.layout, self.pfsig, self.callables, self.qrmap = layout or {}, pfsig or {}, set(callables), qrmap or {}
@@ -769,6 +776,10 @@ class OExec(sx.Exec):
         if lv[0] == "IGNORED" or rv0[0] == "IGNORED":
             if lv[0] != "IGNORED":
                 self.oog("an untranslated quantity flows into %s" % toks_text(lhs))
+            # not translated, but accounted for: exactly the two known updates of the condition estimate
+            rt = "".join(t[1] for t in rhs)
+            if op != "=" or not (rt == "1" or re.fullmatch(r"std::min\([^\W\d][\w\u0300-\u036f]*\.rcond\(\),min_rcond\)", rt)):
+                self.oog("update of the untranslated %s other than `= 1` / `= std::min(F.rcond(), min_rcond)`" % toks_text(lhs))
             return rest(env)
         e = r.simple(rv0)
 
@@ -893,6 +904,8 @@ def problem_signatures(repo):
             kinds.append(kd)
         if kinds is None or (m.group(1) == "void") != (kinds.count("OUT") == 1):
             continue
+        if m.group(2) in out:
+            raise OutOfGrammar("problem function %s declared twice" % m.group(2))
         out[m.group(2)] = (kinds, "S" if m.group(1) == "real_t" else None)
     return out
 
@@ -964,7 +977,11 @@ def layout(repo):
             mm = re.fullmatch(r"\s*(\w+)\s*=\s*(\d+)\s*", item)
             if not mm:
                 raise OutOfGrammar("layout: enumerator %r" % item)
+            if mm.group(1) in enum:
+                raise OutOfGrammar("layout: enumerator %s twice" % mm.group(1))
             enum[mm.group(1)] = int(mm.group(2))
+    if list(enum) != ["i_u", "i_h", "i_c", "i_h_N", "i_c_N"]:
+        raise OutOfGrammar("layout: enumerators of Indices are %s" % list(enum))
     getters = {}
     gm = list(re.finditer(r"\blength_t\s+(\w+)\s*\(([^)]*)\)\s*const\s*\{\s*return\s+([^;{}]+);\s*\}", st))
     for g in gm:
@@ -1093,6 +1110,10 @@ def unit_function(repo, rel, struct, fname, gname, dims_from_dim=False):
     st = struct_text(src, struct, what)
     ptext, body = sx.find_function_body(st, r"\b(?:void|real_t)\s+%s\s*\(" % fname, what)
     rty = re.search(r"\b(void|real_t)\s+%s\s*\(" % fname, st).group(1)
+    squeezed = "".join(sx.nfc(body).split())
+    for text, n in REQUIRED_TEXT.get(fname, {}).items():
+        if squeezed.count(sx.nfc(text)) != n:
+            raise OutOfGrammar("%s: `%s` occurs %d times, expected %d" % (what, text, squeezed.count(sx.nfc(text)), n))
     body = preprocess(body, what)
     ast = sx.parse_body(body, what)
     L = layout(repo) if not dims_from_dim else {}
@@ -1111,9 +1132,14 @@ def unit_function(repo, rel, struct, fname, gname, dims_from_dim=False):
         if out:
             outs.append(cname)
     if dims_from_dim:
-        md = re.search(r"\bstruct\s+Dim\s*\{.*?\blength_t\s+([\w\s,]+);", src, re.S)
-        if not md:
-            raise OutOfGrammar("%s: struct Dim" % what)
+        try:
+            dm = strict.account(strict.split_statements(struct_text(src, "Dim", what)),
+                                [("config", strict.lit("USING_ALPAQA_CONFIG(Conf);"), "1"), ("dims", r"length_t\s+([\w\s,]+);", "1"),
+                                 ("Horizon", r"struct\s+Horizon\s*\{.*\}\s*;", "1"), ("horizon()", strict.lit("Horizon horizon() const { return {N}; }"), "1")],
+                                "struct Dim")
+        except strict.Unaccounted as ex:
+            raise OutOfGrammar("%s: %s" % (what, ex))
+        md = dm["dims"]
         u.dim_order = [x.strip() for x in md.group(1).split(",")]
         for f in u.dim_order:
             cell("dim." + f, "N", f)
@@ -1223,7 +1249,7 @@ END = "(* end of OcpGen *)"
 
 def write(repo=None, outfile=None, write_ref=False):
     repo = repo or os.environ.get("VERIF_REPO", "/repo")
-    outfile = outfile or os.path.join(VERIF, "coq", "gen", "OcpGen.v")
+    outfile = outfile or os.path.join(os.environ.get("VERIF_GEN_OUT") or os.path.join(VERIF, "coq", "gen"), "OcpGen.v")
     return gl.write_generic(repo, outfile, write_ref, units, HEADER, END, REF, "OcpGen.ref.v",
                             "OcpGen.v — by translate/gen_ocp.py", os.path.join(repo, VARS) + " , " + os.path.join(repo, LQR), BINDERS, CTX_ARGS)
 
